@@ -339,6 +339,8 @@ def step (line : String) : String :=
         | none => "READERR"
         | some y => s!"{y.entryId}|{y.qid}|{y.rid}|{y.qStart}|{y.qEnd}|{y.rStart}|{y.rEnd}|{if y.rev then 1 else 0}|{y.conf100}|{y.hitEnum}|{y.qLen}|{y.rLen}|{showBPairs y.pairs}"
       x.line.replace "\t" "|" ++ " READ " ++ rd
+    | "HEADER" =>
+      "\\n".intercalate ((xmapHeader (kv.get "ref") (kv.get "qry")).map fun l => l.replace "\t" "|")
     | "COMPARE" =>
       let c := compareSets (kv.bool "flag") (pMatcher (kv.get "M")) (pBAls (kv.get "A")) (pBAls (kv.get "B"))
       let rows := c.rows.map fun r =>
